@@ -164,7 +164,7 @@ func C18(r *Run) {
 		go func(l *layout) {
 			defer wg.Done()
 			defer func() { <-sem }()
-			ev, ok := runEvent(r, l, true)
+			sess, ok := runSession(r, l, true)
 			if !ok {
 				return
 			}
@@ -181,7 +181,7 @@ func C18(r *Run) {
 				}
 			}
 			mu.Lock()
-			sessions = append(sessions, Sess{Lines: [][]byte{ev}})
+			sessions = append(sessions, sess)
 			mu.Unlock()
 		}(l)
 	}
